@@ -38,7 +38,7 @@ func main() {
 			os.Exit(2)
 		}
 		run := ev.NewRun(c.Property, c.Level)
-		c.Run(run)
+		run.Guard(func() { c.Run(run) })
 		os.Exit(run.Finish())
 	default:
 		fmt.Println("usage: vdev-c41 [check <Cxx>] | evshard <Cxx> <i> <n> <shardDepth> <deadline s> | replay <file>")
